@@ -51,9 +51,9 @@ type hEnv struct {
 	// ageMinSize overrides the number of events kept after ageing (default 2)
 	ageMinSize int
 	// litter drops a stale "<store file>.tmp" (file-backed environments only)
-	litter  func() error
-	cleanup func()
-	probeSeq   int
+	litter   func() error
+	cleanup  func()
+	probeSeq int
 	// store, when set, can be told to fail the next Store call; a step
 	// carrying failStore: true arms it for exactly that call. storeFailed
 	// tells the oracles whether the last step hit the injected failure.
@@ -872,7 +872,7 @@ func catalogDumpOpts(cat *lungo.Catalog, normalise, sortPositions bool) string {
 	oids := map[primitive.ObjectID]primitive.ObjectID{}
 	for _, hd := range handles {
 		c := cat.Namespaces[hd]
-		sb.WriteString("NS " + hd.String() + "\n")
+		sb.WriteString(fmt.Sprintf("NS %s (db %q, collection %q)\n", hd.String(), hd[0], hd[1]))
 		pos := map[*bson.D]int{}
 		for i, d := range c.Documents.List {
 			pos[d] = i
